@@ -20,7 +20,13 @@ Ok(s)      == [ok |-> TRUE, st |-> s, why |-> "", dev |-> "", site |-> ""]
 No(s, why) == [ok |-> FALSE, st |-> s, why |-> why, dev |-> "", site |-> ""]
 Known(fs) == \A i \in 1..Len(fs) : fs[i].cmd # -1
 Apply(s, e) ==
-    CASE e.ev = "hsess" ->
+    CASE e.ev = "hsess" /\ Len(e.frames) = 1 /\ e.frames[1].pay = "eof-inside-frame" ->
+            \* the transport ended in an orderly way in the middle of a frame: the only correct outcome is a clean close
+            IF e.o.panics = 0 /\ e.o.hung = 0 /\ e.o.other_session /\ ClosedCleanly(e.o) THEN Ok([s EXCEPT !.n = @ + 1])
+            ELSE IF e.o.hung # 0 THEN No(s, "after the transport ended inside a frame a task neither finished nor yielded (spins) or an operation never returned")
+            ELSE IF e.o.panics # 0 THEN No(s, "a task panicked")
+            ELSE No(s, "the transport ended inside a frame but the session was not closed cleanly")
+      [] e.ev = "hsess" ->
             LET fs == IF Known(e.frames) THEN e.frames ELSE <<[cmd |-> 5, sid |-> "zero", pay |-> "garbage"]>> IN   \* unknown bytes: nothing is required to be inert
             IF SessionOutcomeOk(e.role, fs, e.o) THEN Ok([s EXCEPT !.n = @ + 1]) ELSE No(s, SessionWhy(e.role, fs, e.o))
       [] e.ev = "hlisten" ->
